@@ -821,4 +821,58 @@ def infoCompileOld (base over : Info) (env envBase : Env) (ctx : Ctx) (baseVerti
         throw .keyError)
   else infoCompile base over env envBase ctx baseVertical baseGasp
 
+/-! ### InfoCompiler and the caller's source: a history of compiles on the same objects
+
+`InfoCompiler.__init__` never writes to the source it is given: the defcon branch goes through
+`getDataForSerialization()` (a new dict), the ufoLib2 branch through `temp_ufo.info = copy.copy(ufo.info)` followed by
+`setattr(temp_ufo.info, k, v)` on the COPY.  The state that survives one application is therefore (compiled font,
+source info), with the source info as it was.  A designspace with several `<variable-font>` elements, or any later
+compile from the same UFO object, is a sequence of such steps threading the source info. -/
+
+/-- `copy.copy(ufo.info)` (ufoLib2) / `getDataForSerialization()` (defcon): a new object with the same attributes -/
+def copyInfo (src : Info) : Info := fun a => src a
+
+/-- `if self.info:` on the `public.fontInfo` dict: no key at all -/
+def noOverrides (over : Info) : Bool := Attr.all.all (fun a => over a == .none)
+
+/-- PostProcessor.process on a font compiled from `src`: `if self.info: self.apply_fontinfo()` — without overrides the
+    compiled font is returned as it is (InfoCompiler is not even constructed) -/
+def postInfo (src over : Info) (env envBase : Env) (ctx : Ctx) (baseVertical baseGasp : Bool) : R Out :=
+  if noOverrides over then compile src envBase ctx
+  else infoCompile src over env envBase ctx baseVertical baseGasp
+
+/-- one font post-processed from the source object `src`: returns the font and the source info as left behind.  The
+    overrides are written to `tmp`, the copy; `src` is only read. -/
+def infoCompileStep (src over : Info) (env envBase : Env) (ctx : Ctx) (baseVertical baseGasp : Bool) : R (Out × Info) :=
+  if noOverrides over then do
+    let o ← compile src envBase ctx
+    pure (o, src)
+  else do
+    let tmp := copyInfo src
+    let o ← infoCompile tmp over env envBase ctx baseVertical baseGasp
+    pure (o, src)
+
+/-- one `<variable-font>` element / one later use of the source: its `public.fontInfo`, the environment of the merged
+    info, and which optional tables the font being post-processed has -/
+structure SeqStep where
+  over : Info
+  env : Env
+  baseVertical : Bool
+  baseGasp : Bool
+
+/-- successive fonts post-processed from the same source object (each one a fresh compile of the source as it is at
+    that moment): the fonts in order, and the source info at the end -/
+def infoCompileSeq (src : Info) (envBase : Env) (ctx : Ctx) : List SeqStep → R (List Out × Info)
+  | [] => pure ([], src)
+  | s :: t => do
+    let (o, src') ← infoCompileStep src s.over s.env envBase ctx s.baseVertical s.baseGasp
+    let (os, fin) ← infoCompileSeq src' envBase ctx t
+    pure (o :: os, fin)
+
+/-- NOT the code: what the ufoLib2 branch would do without the copy (`temp_ufo.info = ufo.info`): the overrides are
+    written onto the caller's source and stay there.  Kept to show what the copy is for (`C16_infocompiler_alias_leaks`). -/
+def infoCompileStepAliased (src over : Info) (env envBase : Env) (ctx : Ctx) (baseVertical baseGasp : Bool) : R (Out × Info) := do
+  let o ← infoCompile src over env envBase ctx baseVertical baseGasp
+  pure (o, mergeInfo src over)
+
 end Ufo2ft.C16
